@@ -99,6 +99,35 @@ def build_harness(name):
     return exe
 
 
+def build_fuzz(name):
+    """libFuzzer build of a tape harness (clang, ASan+UBSan); returns None if clang cannot build this tree"""
+    spec = HARNESS[name]
+    d = os.path.join(BUILD, 'fz_' + name)
+    os.makedirs(d, exist_ok=True)
+    san = ['-fsanitize=address,undefined', '-fno-sanitize=pointer-overflow,shift-base', '-fno-sanitize-recover=undefined', '-fno-omit-frame-pointer']
+    base = ['-g', '-O1', '-I' + os.path.join(REPO, 'include'), '-I' + os.path.join(H, 'core'), '-D' + GUARD] + spec.get('cflags', [])
+    cmds, objs = [], []
+    for src in spec.get('repo', []):
+        o = os.path.join(d, 'repo_' + os.path.basename(src) + '.o')
+        cmds.append(['clang'] + base + san + ['-fsanitize=fuzzer-no-link', '-c', os.path.join(REPO, src), '-o', o])
+        objs.append(o)
+    for src in spec.get('c', []):
+        o = os.path.join(d, os.path.basename(src) + '.o')
+        cmds.append(['clang'] + base + san + ['-c', os.path.join(H, src), '-o', o])
+        objs.append(o)
+    for src in spec.get('cpp', []) + ['core/fuzz_entry.cpp']:
+        o = os.path.join(d, os.path.basename(src) + '.o')
+        cmds.append(['clang++', '-std=gnu++17'] + base + san + ['-c', os.path.join(H, src), '-o', o])
+        objs.append(o)
+    try:
+        par(cmds)
+        exe = os.path.join(d, 'fz_' + name)
+        sh(['clang++'] + san + ['-fsanitize=fuzzer', '-o', exe] + objs + spec.get('libs', []))
+    except HarnessError as e:
+        return None, str(e)[-1500:]
+    return exe, ''
+
+
 def run_env(spec):
     env = dict(os.environ)
     env['ASAN_OPTIONS'] = spec.get('asan_options', 'detect_leaks=0:abort_on_error=1:allocator_may_return_null=1')
@@ -247,6 +276,10 @@ def stage_jobs(pid, tier, si, stage, seed, workdir):
     name = stage['h']
     spec = HARNESS[name]
     exe = build_harness(name)
+    if stage['mode'] == 'fuzz' and '_fz' not in stage:
+        fz, why = build_fuzz(name)
+        stage['_fz'] = fz
+        stage['_fz_skipped'] = '' if fz else 'clang could not build this tree for the libFuzzer stage: ' + why
     cfg = dict(stage.get('common', {}))
     cfg.update(stage.get(tier, {}))
     params = dict(stage.get('params', {}))
@@ -272,6 +305,21 @@ def stage_jobs(pid, tier, si, stage, seed, workdir):
             cmd = [exe, 'enum', '--depth', str(cfg.get('depth', 100000)), '--worker', str(w), '--workers',
                    str(workers), '--split', str(cfg.get('split', 3)), '--maxruns', str(cfg.get('maxruns', 0)),
                    '--out', out] + pargs
+        elif mode == 'fuzz':
+            fz = stage.get('_fz')
+            if fz is None:
+                continue
+            total = int(cfg['runs'])
+            n = total // workers
+            wseed = ((seed * 1000003 + si * 7919 + w * 104729 + 17) & 0x7fffffff) or 1
+            corpus = out + '_corpus'
+            os.makedirs(corpus, exist_ok=True)
+            if w % 2 == 0:  # half of the workers start from a few valid (non-trivial) cases, half from nothing
+                subprocess.run([exe, 'corpus', '--seed', str(wseed), '--cases', '400', '--len', str(cfg.get('len', 100)), '--out', corpus,
+                                '--maxruns', '24'] + pargs, stdout=subprocess.DEVNULL, stderr=subprocess.DEVNULL)
+            cmd = [fz, '-seed=%d' % wseed, '-runs=%d' % n, '-max_len=%d' % cfg.get('max_len', 512), '-artifact_prefix=' + out + '_art_',
+                   '-print_final_stats=1', '-timeout=25', '-rss_limit_mb=3000', corpus]
+            extra_env = dict(VERIF_FUZZ_PARAMS=','.join('%s=%s' % (k, params[k]) for k in sorted(params)), VERIF_FUZZ_OUT=out)
         elif mode == 'custom':
             cmd = [exe, 'custom', '--worker', str(w), '--workers', str(workers), '--seed', str(seed),
                    '--out', out] + pargs
@@ -286,6 +334,7 @@ def stage_jobs(pid, tier, si, stage, seed, workdir):
         if 'watchdog' in cfg and mode != 'script':
             cmd += ['--watchdog', str(cfg['watchdog'])]
         jobs.append(dict(cmd=cmd, out=out, stage=si, spec=spec, exe=exe, name=name, params=params, mode=mode,
+                         extra_env=extra_env if mode == 'fuzz' else None,
                          timeout=cfg.get('timeout', 3000 if tier == 'thorough' else 900)))
     return jobs
 
@@ -300,7 +349,10 @@ def run_jobs(jobs, stop_on_failure=True):
             j = pending.pop(0)
             j['log'] = open(j['out'] + '.log', 'w')
             j['t0'] = time.time()
-            j['proc'] = subprocess.Popen(j['cmd'], stdout=j['log'], stderr=subprocess.STDOUT, env=run_env(j['spec']))
+            env = run_env(j['spec'])
+            if j.get('extra_env'):
+                env.update(j['extra_env'])
+            j['proc'] = subprocess.Popen(j['cmd'], stdout=j['log'], stderr=subprocess.STDOUT, env=env)
             running.append(j)
         if failed_seen and stop_on_failure:
             for j in pending:
@@ -326,6 +378,9 @@ def run_jobs(jobs, stop_on_failure=True):
                     continue
             else:
                 j['rc'] = rc
+                if rc != 0 and j['mode'] == 'fuzz':
+                    j['log'].flush()
+                    rc = j['rc'] = fuzz_post(j)
                 if rc != 0:
                     failed_seen = True
             j['wall'] = time.time() - j['t0']
@@ -333,6 +388,30 @@ def run_jobs(jobs, stop_on_failure=True):
             running.remove(j)
             done.append(j)
     return done
+
+
+def fuzz_post(j):
+    """a libFuzzer worker stopped: turn its artifact into the replay format, or decide that it was load noise"""
+    if os.path.exists(j['out'] + '.fail'):
+        return 1  # the oracle inside the target failed and wrote the case itself
+    arts = sorted(glob.glob(j['out'] + '_art_crash-*') + glob.glob(j['out'] + '_art_leak-*'))
+    if not arts:
+        j['inconclusive'] = 'libFuzzer stopped without a crash artifact (timeout / oom / slow unit): load noise'
+        return 0
+    trace = j['out'] + '.trace'
+    env = run_env(j['spec'])
+    env.update(j['extra_env'])
+    env['VERIF_FUZZ_TRACE'] = trace
+    env.pop('VERIF_FUZZ_OUT', None)
+    try:
+        subprocess.run([j['cmd'][0], arts[0]], stdout=subprocess.DEVNULL, stderr=subprocess.DEVNULL, env=env, timeout=60)
+    except subprocess.TimeoutExpired:
+        pass
+    tape = [int(x) for x in open(trace).read().split()] if os.path.exists(trace) else []
+    d = dict(harness=j['name'], params={k: str(v) for k, v in j['params'].items()}, tape=tape, enumerating=False,
+             comments=['# librfn-verif replay (process died: libFuzzer artifact %s)' % os.path.basename(arts[0])], extra=[])
+    write_replay(j['out'] + '.crash', d)
+    return 1
 
 
 def merge_distinct(exe_any, files):
@@ -475,7 +554,11 @@ def _run_property(pid, tier, prop, seed, workdir, evid_path, t0):
         hashes = []
         direct_distinct = 0
         scls = {}
+        if st.get('_fz_skipped'):
+            inconclusive.append(st['_fz_skipped'])
         for j in sj:
+            if j.get('inconclusive'):
+                inconclusive.append('stage %d: %s' % (si, j['inconclusive']))
             if j.get('timed_out'):
                 inconclusive.append('stage %d worker timed out after %ds' % (si, j['timeout']))
             sp = j['out'] + '.stats.json'
